@@ -74,6 +74,38 @@ def iv5(m, run, keep=None):
         run.ob('IV5.foreign-state-cache', 'multi :: no aggregate cache', True, 'no container cache is filled from element state', '')
 
 
+def foreign_cache_in(m, run, mod, holders, rule='IV5.foreign-state-cache'):
+    """classes of `mod`: no `self._cache[K]` entry is filled from attributes of the objects held in `holders` (objects that other code
+    renumbers or edits: a Triangle's vertices are renumbered by fix_numbering and by the container offsets)"""
+    import ast
+    from ..model import norm, walk_no_nested
+    found = []
+    for ck in sorted(k for k in m.classes if k[0] == mod):
+        ci = m.classes[ck]
+        for fi in list(ci.methods.values()) + list(ci.getters.values()) + list(ci.setters.values()):
+            for n in walk_no_nested(fi.node):
+                if not isinstance(n, (ast.Assign, ast.AugAssign)):
+                    continue
+                tg = n.targets[0] if isinstance(n, ast.Assign) else n.target
+                if not (isinstance(tg, ast.Subscript) and norm(tg.value) == 'self._cache'):
+                    continue
+                src = False
+                for c in ast.walk(n.value):
+                    if isinstance(c, (ast.ListComp, ast.GeneratorExp, ast.SetComp)):
+                        for g in c.generators:
+                            if norm(g.iter) in holders and isinstance(g.target, ast.Name) and any(
+                                    isinstance(x, ast.Attribute) and isinstance(x.value, ast.Name) and x.value.id == g.target.id for x in ast.walk(c.elt)):
+                                src = True
+                if src:
+                    found.append((ck, norm(tg.slice), fi, n))
+    for ck, key, fi, n in found:
+        run.ob(rule, '%s.%s :: _cache[%s] depends on the state of held objects' % (ck[0], ck[1], key), False,
+               'the cached value is computed from attributes of the objects in %s, which other code updates in place (vertex ids are renumbered after the '
+               'triangles are built): a later read returns the stale value' % '/'.join(holders), rs.site(fi, n))
+    if not found:
+        run.ob(rule, '%s :: no cache over held objects' % mod, True, 'no class of %s caches values derived from the objects it holds' % mod, '')
+
+
 def iv7(m, run):
     """the tessellation cache lives in the tessellator object: a component assigned to several elements inside a loop
     must be a fresh object per element (a call evaluated in the loop), never one loop-invariant reference"""
